@@ -208,10 +208,21 @@ class SStr:
             self._lang = cur
         return self._lang
 
+    @staticmethod
+    def _piece_len(p):
+        """length of one piece as a term: literals by their length, first/last as 1, rest/init of x as |x| - 1"""
+        if isinstance(p, str):
+            return SInt(len(p))
+        if isinstance(p, Fn) and p.name in ('first', 'last'):
+            return SInt(1)
+        if isinstance(p, Fn) and p.name in ('rest', 'init'):
+            return p.arg.length() - 1
+        return SInt(0, {p.key(): 1})
+
     def length(self):
         n = SInt()
         for p in self.parts:
-            n = n + (len(p) if isinstance(p, str) else SInt(0, {p.key(): 1}))
+            n = n + self._piece_len(p)
         return n
 
     def __add__(self, o):
@@ -271,9 +282,20 @@ class SStr:
         return None, None
 
     def truth(self):
-        if any(isinstance(p, str) for p in self.parts):
+        if any(isinstance(p, str) and p for p in self.parts):
             return True
-        return self._decide(L('.+'), 'truth value')
+        sym = [p for p in self.parts if not isinstance(p, str)]
+        if len(sym) > 1:
+            # non-empty iff one of the pieces is: decided piece by piece, refining on the first piece that can be either
+            empt = lit_lang('')
+            if any(p.lang.intersect(empt).is_empty() for p in sym):
+                return True
+            if all(p.lang.not_subset_witness(empt) is None for p in sym):
+                return False
+            for p in sym:
+                if p.lang.not_subset_witness(empt) is not None:
+                    raise _und(p, L('(?s:.+)'), 'truth value is not determined for the case %r' % (self,))
+        return self._decide(L('(?s:.+)'), 'truth value')
 
     def contains(self, sub):
         c = lift(sub).concrete()
@@ -316,8 +338,13 @@ class SStr:
             subs = {chars_or_items[i:j] for i in range(len(chars_or_items) + 1) for j in range(i, len(chars_or_items) + 1)}
             pat = '|'.join(re.escape(s) for s in sorted(subs))
             return self._decide(L('(?:%s)' % pat), 'in %r' % chars_or_items)
+        items = list(chars_or_items)
+        consts = [lift(x).concrete() if isinstance(x, (str, SStr)) else None for x in items]
+        if items and all(c is not None for c in consts):
+            # membership in a tuple of constants: one language decision (with a refinement hint when undecided)
+            return self._decide(L('(?:%s)' % '|'.join(re.escape(c) for c in sorted(set(consts)))), 'in %r' % (tuple(consts),))
         res = []
-        for it in chars_or_items:
+        for it in items:
             try:
                 res.append(self.equals(it))
             except Undecided:
@@ -599,10 +626,12 @@ class SStr:
                 return SStr([p[:k]]), SStr([p[k:]] + self.parts[1:])
             a, b = SStr(self.parts[1:]).head(k - len(p))
             return SStr([p]) + a, b
+        if p.lang.not_subset_witness(lit_lang('')) is None:
+            return SStr(self.parts[1:]).head(k)          # a piece that is the empty string in this case
         if k != 1:
             raise Undecided('prefix of length %d of %r' % (k, p))
         if not p.lang.intersect(lit_lang('')).is_empty():
-            raise Undecided('first character of the possibly empty piece %r' % (p,))
+            raise _und(p, L('(?s:.+)'), 'first character of the possibly empty piece %r' % (p,))
         one = SStr([p])
         first = Fn('first', one, _first_lang(p.lang))
         rest = Fn('rest', one, _rest_lang(p.lang))
@@ -620,15 +649,21 @@ class SStr:
                 return SStr(self.parts[:-1] + [p[:-k]]), SStr([p[-k:]])
             a, b = SStr(self.parts[:-1]).tail(k - len(p))
             return a, b + p
+        if p.lang.not_subset_witness(lit_lang('')) is None:
+            return SStr(self.parts[:-1]).tail(k)
         if k != 1:
             raise Undecided('suffix of length %d of %r' % (k, p))
         if not p.lang.intersect(lit_lang('')).is_empty():
-            raise Undecided('last character of the possibly empty piece %r' % (p,))
+            raise _und(p, L('(?s:.+)'), 'last character of the possibly empty piece %r' % (p,))
         one = SStr([p])
         return SStr(self.parts[:-1] + [Fn('init', one, _init_lang(p.lang))]), SStr([Fn('last', one, _last_lang(p.lang))])
 
     def subscript(self, key):
         if isinstance(key, int):
+            if key == 0:
+                return self.head(1)[0]          # the first character itself (a one-character piece)
+            if key == -1:
+                return self.tail(1)[1]
             if key >= 0:
                 a, _b = self.head(key + 1)
                 _x, ch = a.tail(1)
@@ -639,6 +674,12 @@ class SStr:
         if isinstance(key, slice) and key.step is None:
             lo, hi = key.start, key.stop
             cur = self
+            if isinstance(lo, int) and 0 < lo <= 2 and isinstance(hi, SInt):
+                # s[k:n]: drop the first k characters, then cut at n - k
+                rest = cur
+                for _ in range(lo):
+                    rest = rest.head(1)[1]
+                return rest._slice_sym(None, hi - lo)
             if isinstance(lo, SInt) or isinstance(hi, SInt):
                 return self._slice_sym(lo, hi)
             if lo is not None and lo < 0 and hi is None:
@@ -680,7 +721,7 @@ class SStr:
                             return i, rem.const
                         acc = acc + len(p)
                     else:
-                        acc = acc + SInt(0, {p.key(): 1})
+                        acc = acc + self._piece_len(p)
             raise Undecided('slice bound %r does not fall on a piece boundary of %r' % (n, self))
 
         def split_at(pos):
